@@ -15,6 +15,8 @@ EXPLANATION = ('For every call in physical-plan, datasource*, execution, common-
                'RepartitionExec::wait_for_task and any like it) runs until the iterator is exhausted on every path, so a failed send to an '
                'output that hung up cannot keep the error from the outputs still being read. '
                'Bounded time and absence of hangs are not decided.')
+# path rules cut loops after a bounded number of iterations: complete over rule instances, not over all unrollings
+EXHAUSTIVE = False
 ASSUMPTIONS = ['flow-insensitive def-use: a payload that reaches a sink on some path counts as handled',
                'error types: DataFusionError, ArrowError, ParquetError, io::Error, object_store::Error, JoinError']
 
